@@ -29,6 +29,12 @@ pub fn run_cell(ctx: &Ctx, plan: &LawPlan, min_n: u64) -> Option<LawOutcome> {
     let cell = &plan.cell;
     let sampler = match build(cell) {
         Ok(s) => s,
+        Err(e) if cell.fam == Fam::Hypergeometric && e.contains("PopulationTooLarge") => {
+            // documented: "total_population_size is too large, causing floating point underflow" — E holds
+            // only parameter sets the constructor accepts (C04 judges constructors)
+            ctx.class("cells_rejected_by_constructor:PopulationTooLarge", 1);
+            return None;
+        }
         Err(e) => {
             ctx.violation(Violation {
                 property: ctx.property.clone(),
@@ -135,7 +141,9 @@ pub fn plans_c02(ctx: &Ctx) -> Vec<LawPlan> {
         for &p in &ps {
             // BTPE needs n*min(p,1-p) >= 10: those cells carry the method's squeeze constants and get the grid sample size
             let btpe = (n as f64) * p.min(1.0 - p) >= 10.0;
-            plans.push(LawPlan { cell: Cell::newi(Fam::Binomial, &[n], &[p]), n: if btpe { n_grid } else { n_small.max(1_000_000) }, origin: "exhaustive_small" });
+            // the small BTPE cells are the only ones whose end points 0 / n carry visible mass (down to ~5e-7 at
+            // n = 20, 21): 6.4e7 draws make an unreachable end point a certain rejection already at the quick tier
+            plans.push(LawPlan { cell: Cell::newi(Fam::Binomial, &[n], &[p]), n: if btpe { n_grid.max(64_000_000) } else { n_small.max(1_000_000) }, origin: "exhaustive_small" });
         }
     }
     for nn in 0..=40u64 {
